@@ -198,7 +198,10 @@ CONTEXTS = ["now + {} s", "now - {} s", "#2020-01-01# + {}", "#2020-01-01# - {}"
             # exponents of base units near the i32 / i64 limits
             "(m^{})^{}", "((m^{})^{})^{}", "m^{} * m", "m^{} m^{}", "m^{} / m^-{}", "(kg^{})^{}", "1 -> (m^{})^{}", "sqrt(m^{})",
             "(m^2)^1073741824", "(m^-2)^1073741824", "(byte^3)^715827883", "(m^2)^-1073741824",
-            "((m^2147483647)^2147483647)^3", "((s^-2147483647)^2147483647)^-2"]
+            "((m^2147483647)^2147483647)^3", "((s^-2147483647)^2147483647)^-2",
+            # years at the edge of i32 with BC, timezone targets (the parsed query must serialise)
+            "#jan 1, -2147483647 bc#", "#-2147483647 jan 1 bc#", "#jan 1, 2147483647 bc#", "now -> UTC", "{} -> EST",
+            "#2020-01-01# -> \"Europe/Paris\"", "{} -> digits 18446744073709551615"]
 SUBSTANCES = ["water", "gold", "oxygen", "nitrogen", "H2O", "C2H6", "NaCl", "air", "2 kg water", "3 m oxygen", "1 mol gold", "5 liter water",
               "2 oxygen", "(1|0) water", "ln(-1) gold", "0 water", "1 kg nitrogen", "1 m oxygen", "iron / 2", "water * 3 s"]
 OFFSETS = ["+00:00", "+23:59", "-23:59", "+24:00", "+99:99", "+999999:00", "-999999:00", "+2147483647:00", "+596523:00", "+596524:00",
@@ -230,6 +233,11 @@ def g_searchcmd(rng):
     r = rng.random()
     prod = " ".join("%s^%d" % (u, rng.choice([-12, -9, -7, -5, -4, -3, -2, -1, 1, 2, 3, 4, 5, 6, 7, 8, 10, 12]))
                     for u in rng.sample(SEARCH_UNITS, rng.randrange(2, 8)))
+    if r < 0.08:
+        # few factors, large exponents: one recursion level per factor of the product
+        return rng.choice(["factorize m^22000", "factorize (m^150)^150", "factorize (m s kg A K mol cd bit)^2000",
+                           "factorize m^%d" % rng.choice([300, 2000, 9999, 30000]), "factorize (m^2 s^-3)^%d" % rng.randrange(100, 5000),
+                           "units for m^22000"])
     if r < 0.55:
         return "factorize " + prod
     if r < 0.7:
@@ -370,11 +378,18 @@ def is_expensive(text):
 def run_history(part, probe, rng, corpus, length, budget):
     kind = "currency" if rng.random() < 0.2 else "bundled"
     cid = probe.ctx(kind, save_prev=True)
+    chain = []
+    if rng.random() < 0.15:
+        # repeated squaring through the previous answer: exponents of base units double at every step
+        chain = [rng.choice(["(m 'foo')^2147483647", "(m s)^2147483647", "m s", "1 / (kg m)^2147483647"])] + \
+                [rng.choice(["ans ans", "ans * ans", "ans / (1 / ans)", "ans^2"])] * 66
     for step in range(length):
         gen = rng.choice(["grammar", "grammar", "soup", "mutation", "mutation", "raw", "special", "special"])
         if rng.random() < 0.03:
             gen = "searchcmd"           # about 2 s each in the probe profile: kept rare
         text = {"grammar": g_grammar, "soup": g_soup, "raw": g_raw, "special": g_special, "searchcmd": g_searchcmd}.get(gen, lambda r: g_mutation(r, corpus))(rng)
+        if chain:
+            gen, text = "chain", chain.pop(0)
         text = text.replace("\n", " ")[:500]
         part.evaluations += 1
         cheap = not is_expensive(text)
@@ -382,6 +397,13 @@ def run_history(part, probe, rng, corpus, length, budget):
         if "timeout" in r and not cheap:
             # an expensive input may take long by the statement; nothing to decide, and no point re-running it
             part.inconclusive_event("expensive input exceeded the watchdog", {"input": text[:200]})
+            cid = probe.ctx(kind, save_prev=True)
+            continue
+        if "died" in r and "overflowed its stack" in (r.get("stderr") or ""):
+            # running out of stack is never what the cost exemption is about (only *taking long* is)
+            part.violation({"kind": "stack_overflow", "generator_class": _shape(text)},
+                           {"input": text, "stderr": (r.get("stderr") or "")[-200:], "cheap": cheap},
+                           "input overflows the stack (the process aborts)")
             cid = probe.ctx(kind, save_prev=True)
             continue
         if "timeout" in r or "died" in r:
@@ -405,6 +427,11 @@ def run_history(part, probe, rng, corpus, length, budget):
             part.count("slow_but_finished_alone")
         if "harness_error" in r:
             raise HarnessError(r["harness_error"])
+        if r.get("query_json_error"):
+            # the parsed query as JSON is what rink-js hands to JavaScript, unwrapping the result
+            part.violation({"kind": "query_not_serialisable", "message": str(r["query_json_error"])[:80]},
+                           {"input": text, "error": r["query_json_error"]},
+                           "the parsed query cannot be serialised (rink-js unwraps this error)")
         part.count("gen:" + gen)
         rep = r.get("r") or {}
         k = rep.get("kind") or "none"
